@@ -182,11 +182,13 @@ _X = [{'f1': None, 'f2': None, 'mode': 'disabled'}, {'f1': None, 'f2': None, 'mo
 _QS = _shards([None, 'key_arg', 'in_handler', 'out_handler', 'unser_value', 'discard_body'],
               [('key_arg', 'discard_op')], _QOPS, _X) + [{'f1': 'key_resolver', 'f2': None, 'first': _o('R')},
                                                          {'f1': 'force_body', 'f2': None, 'first': _o('A', 1)}]
-_TOPS2 = [_o('A', 1), _o('D', 1), _o('R'), _o('H'), _o('N'), _o('O', 1), _o('U')]
-# thorough: single faults on programs <= 3, pairs of faults on programs <= 2, both over 7 opcode kinds
-_TS = _shards([None] + FAULT_KINDS, [], _TOPS2,
-              _X + [{'f1': 'key_arg', 'f2': None, 'fail_save': True}, {'f1': 'discard_body', 'f2': None, 'copy': True}]) + \
-      [dict(x, **{'b.L': 2}) for x in _shards([], [(a, b) for a in FAULT_KINDS for b in FAULT_KINDS if a < b], _TOPS2, [])]
+_TOPS2 = [_o('A', 1), _o('R'), _o('H'), _o('O', 1), _o('U')]
+# thorough: the heavier fault kinds on programs <= 3, the other single faults and all 36 pairs on programs <= 2
+_TS = _shards([None, 'key_arg', 'in_handler', 'discard_body', 'unser_value'], [], _TOPS2, []) + \
+      [dict(x, **{'b.L': 2}) for x in _shards(['key_resolver', 'out_handler', 'discard_op', 'force_op', 'force_body'],
+                                              [(a, b) for a in FAULT_KINDS for b in FAULT_KINDS if a < b], _TOPS2,
+                                              _X + [{'f1': 'key_arg', 'f2': None, 'fail_save': True},
+                                                    {'f1': 'discard_body', 'f2': None, 'copy': True}])]
 _W = {'f1': 'key_arg', 'f2': None, 'first': _o('A', 1)}
 _QB = {'L': 2, 'OPS': _QOPS, 'EXCSLOTS': [1], 'EXTRACTORS': [0, 1, 2, 3]}
 _TB = {'L': 3, 'OPS': _TOPS2, 'EXCSLOTS': [1], 'EXTRACTORS': [0, 1, 2, 3, 4, 5, 6]}
@@ -204,8 +206,9 @@ CONDITIONS = [
                                     for b in ([0, 30], [30, 60], [60, 110])],
                          'witness_shard': {'discard_by': 'worker', 'preemptions': 1, 'bucket': [0, 110]}},
                'thorough': {'bounds': {'STEPS': 110, 'FORCED': 5}, 'timeout': 8000,
-                            'shards': [{'discard_by': d, 'preemptions': 2, 'bucket': [b, b + 5]} for d in (None, 'worker', 'body', 'operation', 'watchdog')
-                                       for b in range(0, 110, 5)],
+                            'shards': [{'discard_by': d, 'preemptions': 2, 'bucket': [b, b + 5]} for d in ('worker', 'body', 'watchdog')
+                                       for b in range(0, 110, 5)] +
+                                      [{'discard_by': d, 'preemptions': 1, 'bucket': [0, 110]} for d in (None, 'operation')],
                             'witness_shard': {'discard_by': 'worker', 'preemptions': 1, 'bucket': [0, 110]}}}},
     {'fn': 'operation_flavours', 'nontrivial': 'extractor-misbehaves',
      'what': 'metadata extractor succeeding / raising / returning junk on instance and class-level operations',
